@@ -15,6 +15,16 @@ Definition reads_back (n : list Z) : Prop := lex_text (n ++ [32]) = ([mkTok TSym
 Lemma init_view : view init_lstate LNormal [] [] 0.
 Proof. destruct init_ring_ok as [A B]. split; try reflexivity; assumption. Qed.
 
+(* [reach a]: a fresh lexer that has read a holds all of a in its atom buffer (normal mode, no token yet) *)
+Definition reach (a : list Z) : Prop :=
+  exists s1, lex_all init_lstate a = LOk s1 /\ view s1 LNormal a [] (last a 0).
+
+Lemma plain_reach : forall a, Forall plain a -> reach a.
+Proof.
+  intros a F. destruct (run_plain a init_lstate [] [] 0 F init_view) as [s1 [E1 V1]]. cbn [app] in V1.
+  exists s1. split; assumption.
+Qed.
+
 (* the blank behind a pending atom: dumpBuffer decides *)
 Lemma blank_after : forall s b p, view s LNormal b [] p -> b <> [] ->
   match decode_atom b with
@@ -99,14 +109,15 @@ Lemma rl_len : forall l : list Z, (length (removelast l) <= length l)%nat.
 Proof. induction l as [|a l IH]; simpl; [lia|]. destruct l; simpl in *; lia. Qed.
 
 (* DecodeAtom never makes a symbol token longer than the atom *)
-Lemma decode_symbol_len : forall x y, decode_atom x = Some (mkTok TSymbol y) -> (length y <= length x)%nat.
+Lemma decode_symbol_len0 : forall x y, decode_atom x = Some (mkTok TSymbol y) ->
+  (length y <= length (if (last_rune x =? 58)%Z then removelast x else x))%nat.
 Proof.
   intros x y. unfold decode_atom. cbv zeta.
   set (ec := last_rune x =? 58). set (atom := if ec then removelast x else x).
-  assert (length atom <= length x)%nat as L by (unfold atom; destruct ec; [apply rl_len|lia]).
+  assert (length atom <= length atom)%nat as L by lia.
   clearbody atom.
   destruct (list_eqb atom [38]) eqn:E38.
-  { intro H. injection H as H. subst y. apply list_eqb_eq in E38. rewrite E38 in L. exact L. }
+  { intro H. injection H as H. subst y. apply list_eqb_eq in E38. subst atom. exact L. }
   destruct (list_eqb atom [92]); [intro H; discriminate H|].
   do 7 (match goal with |- (if ?c then _ else _) = _ -> _ => destruct c; [intro H; discriminate H|] end).
   destruct (list_eqb atom [78; 97; 78] || list_eqb atom [110; 97; 110]); [intro H; discriminate H|].
@@ -117,6 +128,18 @@ Proof.
   { destruct ec; intro H; [discriminate H|]. injection H as H; subst y; exact L. }
   destruct (re_match re_CharRegex atom); [destruct (decode_char atom); intro H; discriminate H|].
   destruct ec; intro H; discriminate H.
+Qed.
+
+Lemma decode_symbol_len : forall x y, decode_atom x = Some (mkTok TSymbol y) -> (length y <= length x)%nat.
+Proof.
+  intros x y H. apply decode_symbol_len0 in H. destruct (last_rune x =? 58); [|exact H].
+  pose proof (rl_len x). lia.
+Qed.
+
+Lemma decode_symbol_len_colon : forall a y, decode_atom (a ++ [58]) = Some (mkTok TSymbol y) -> (length y <= length a)%nat.
+Proof.
+  intros a y H. apply decode_symbol_len0 in H. unfold last_rune in H. rewrite last_last in H.
+  change (58 =? 58) with true in H. cbv iota in H. rewrite removelast_last in H. exact H.
 Qed.
 
 (* the special runes that end a pending atom at once (or are an error behind one): everything special except
@@ -172,7 +195,7 @@ Proof.
   ds s1. cbn [l_tokens] in V3. subst tk. reflexivity.
 Qed.
 
-Lemma split_general : forall a c rest, Forall plain a -> a <> [] ->
+Lemma split_general : forall a c rest, reach a -> a <> [] ->
   (forall s, view s LNormal a [] (last a 0) ->
      match lex_rune s c with
      | LErr _ => True
@@ -182,7 +205,7 @@ Lemma split_general : forall a c rest, Forall plain a -> a <> [] ->
 Proof.
   intros a c rest F Ha St H. unfold reads_back, lex_text in H.
   rewrite <- app_assoc in H. cbn [app] in H.
-  destruct (run_plain a init_lstate [] [] 0 F init_view) as [s1 [E1 V1]]. cbn [app] in V1.
+  destruct F as [s1 [E1 V1]].
   rewrite lex_all_app, E1 in H. cbn [lex_all] in H.
   pose proof (St s1 V1) as S.
   destruct (lex_rune s1 c) as [s2|s2].
@@ -193,17 +216,235 @@ Proof.
   - cbn [lres_state lres_ok] in H. injection H as _ H. discriminate H.
 Qed.
 
-Theorem split_name_not_readable : forall a c rest, Forall plain a -> a <> [] -> In c hard_runes ->
+Theorem split_name_not_readable : forall a c rest, reach a -> a <> [] -> In c hard_runes ->
   ~ reads_back (a ++ c :: rest).
 Proof.
   intros a c rest F Ha Hc. apply split_general; [exact F|exact Ha|].
   intros s V. exact (hard_step c Hc s a _ V Ha).
 Qed.
 
-Theorem sign_split_not_readable : forall a c rest, Forall plain a -> a <> [] -> c = 43 \/ c = 45 ->
+Theorem sign_split_not_readable : forall a c rest, reach a -> a <> [] -> c = 43 \/ c = 45 ->
   ((last a 0 =? 101) || (last a 0 =? 69)) && sci_prefix_ok a = false ->
   ~ reads_back (a ++ c :: rest).
 Proof.
   intros a c rest F Ha Hc Hns. apply split_general; [exact F|exact Ha|].
   intros s V. exact (sign_step c Hc s a _ V Ha Hns).
+Qed.
+
+(* ---- the two special runes whose effect is decided by the NEXT rune: / and : ---- *)
+
+Lemma pre_first : forall f : lstate -> Z -> lres,
+  (forall pre s r, f (pre_q pre s) r = lres_map (pre_q pre) (f s r)) ->
+  forall s r tok X, l_tokens s = tok :: X -> exists Y, l_tokens (lres_state (f s r)) = tok :: Y.
+Proof.
+  intros f Hf s r tok X H. rewrite <- (pre_q_empty s), Hf, H.
+  destruct (f (set_tokens [] s) r) as [s'|s']; cbn [lres_map lres_state];
+    ds s'; unfold pre_q, set_tokens; cbn [l_tokens app]; eexists; reflexivity.
+Qed.
+
+Lemma lex_rune_slash : forall s r, l_state s = LFirstFwdSlash -> lex_rune s r = lex_firstslash (ring_push r s) r.
+Proof. intros s r H. dst s; prj. subst st. reflexivity. Qed.
+
+Definition second_ok (a : list Z) (x : lres) : Prop :=
+  match x with
+  | LErr _ => True
+  | LOk s1 => exists tok X, (decode_atom a = Some tok \/ decode_atom (a ++ [58]) = Some tok) /\ l_tokens s1 = tok :: X
+  end.
+
+Ltac wl := cbn [l_buffer l_tokens l_state l_prevtok l_linenum l_priori l_ring l_prevrune l_prebuiltin l_prevprevtok
+  set_state set_buffer set_tokens set_prevtok set_prevprevtok set_linenum set_prevrune set_prebuiltin set_priori set_ring
+  append_token write_rune write_runes app].
+
+Lemma slash_second : forall s r x a, l_state s = LFirstFwdSlash -> l_buffer s = x :: a -> l_tokens s = [] ->
+  second_ok (x :: a) (lex_rune s r).
+Proof.
+  intros s r x a H1 H2 H3. rewrite lex_rune_slash by exact H1.
+  assert (l_buffer (ring_push r s) = x :: a) as B by (ds s; exact H2).
+  assert (l_tokens (ring_push r s) = []) as T by (ds s; exact H3).
+  set (s1 := ring_push r s) in *. clearbody s1. clear H1 H2 H3.
+  ds s1. cbn [l_buffer l_tokens] in B, T. subst bf tk.
+  unfold second_ok, lex_firstslash, with_dump, dump_buffer.
+  destruct (r =? 47).
+  { wl. destruct (decode_atom (x :: a)) as [tok|]; [|exact I].
+    exists tok; eexists; split; [left; reflexivity|]. wl. reflexivity. }
+  destruct (r =? 42).
+  { wl. destruct (decode_atom (x :: a)) as [tok|]; [|exact I].
+    exists tok; eexists; split; [left; reflexivity|]. wl. reflexivity. }
+  wl. destruct (decode_atom (x :: a)) as [tok|]; [|exact I].
+  match goal with |- context [lex_builtin ?S r] =>
+    destruct (pre_first lex_builtin lex_builtin_pre S r tok [] eq_refl) as [Y HY];
+    destruct (lex_builtin S r) as [s2|s2]; [|exact I] end.
+  exists tok, Y. split; [left; reflexivity|exact HY].
+Qed.
+
+Lemma colon_second : forall s r x a, l_state s = LFreshAssignOrColon -> l_buffer s = x :: a -> l_tokens s = [] ->
+  second_ok (x :: a) (lex_rune s r).
+Proof.
+  intros s r x a H1 H2 H3. rewrite lex_rune_fresh by exact H1.
+  assert (l_buffer (ring_push r s) = x :: a) as B by (ds s; exact H2).
+  assert (l_tokens (ring_push r s) = []) as T by (ds s; exact H3).
+  set (s1 := ring_push r s) in *. clearbody s1. clear H1 H2 H3.
+  ds s1. cbn [l_buffer l_tokens] in B, T. subst bf tk.
+  unfold second_ok, lex_freshassign, with_dump, dump_buffer.
+  destruct (r =? 61).
+  { wl. destruct (decode_atom (x :: a)) as [tok|]; [|exact I].
+    exists tok; eexists; split; [left; reflexivity|]. wl. reflexivity. }
+  wl. destruct (slice_bound (x :: a)).
+  { destruct (decode_atom (x :: a)) as [tok|]; [|exact I].
+    match goal with |- context [lex_normal ?S r] =>
+      destruct (pre_first lex_normal lex_normal_pre S r tok [mkTok TColonOperator [58]] eq_refl) as [Y HY];
+      destruct (lex_normal S r) as [s2|s2]; [|exact I] end.
+    exists tok, Y. split; [left; reflexivity|exact HY]. }
+  destruct (decode_atom (x :: a ++ [58])) as [tok|]; [|exact I].
+  match goal with |- context [lex_normal ?S r] =>
+    destruct (pre_first lex_normal lex_normal_pre S r tok [] eq_refl) as [Y HY];
+    destruct (lex_normal S r) as [s2|s2]; [|exact I] end.
+  exists tok, Y. split; [right; reflexivity|exact HY].
+Qed.
+
+Lemma two_step : forall c, c = 47 \/ c = 58 -> forall s r a p, view s LNormal a [] p -> a <> [] ->
+  second_ok a (lex_all s [c; r]).
+Proof.
+  intros c Hc s r a p V Ha. destruct a as [|x a]; [congruence|]. cbn [lex_all]. destruct Hc; subst c.
+  - rewrite lex_rune_normal by apply V.
+    apply (push_view _ _ _ _ _ 47) in V. set (s1 := ring_push 47 s) in *. clearbody s1.
+    destruct V as [V1 V2 V3 _ _ _].
+    change (lex_normal s1 47) with (LOk (set_state LFirstFwdSlash s1)). cbv beta iota.
+    pose proof (slash_second (set_state LFirstFwdSlash s1) r x a) as S.
+    destruct (lex_rune (set_state LFirstFwdSlash s1) r) as [s2|s2]; [|exact I].
+    apply S; [ds s1; reflexivity|ds s1; exact V2|ds s1; exact V3].
+  - destruct (step_colon s (x :: a) [] p V) as [s1 [E1 V1]]. rewrite E1. cbv beta iota.
+    pose proof (colon_second s1 r x a (v_state _ _ _ _ _ V1) (v_buf _ _ _ _ _ V1) (v_toks _ _ _ _ _ V1)) as S.
+    destruct (lex_rune s1 r) as [s2|s2]; [|exact I]. exact S.
+Qed.
+
+Theorem slash_colon_split_not_readable : forall a c rest, reach a -> a <> [] -> c = 47 \/ c = 58 ->
+  ~ reads_back (a ++ c :: rest).
+Proof.
+  intros a c rest F Ha Hc H. unfold reads_back, lex_text in H.
+  rewrite <- app_assoc in H. cbn [app] in H.
+  destruct F as [s1 [E1 V1]].
+  rewrite lex_all_app, E1 in H.
+  destruct (rest ++ [32]) as [|r rest2] eqn:E; [apply app_eq_nil in E; destruct E as [_ E]; discriminate E|].
+  change (c :: r :: rest2) with ([c; r] ++ rest2) in H. rewrite lex_all_app in H.
+  pose proof (two_step c Hc s1 r a _ V1 Ha) as S.
+  destruct (lex_all s1 [c; r]) as [s2|s2].
+  - destruct S as [tok [X [Hd Ht]]].
+    destruct (first_token_kept rest2 s2 tok X Ht) as [Y HY].
+    injection H as H1 H2. rewrite HY in H1. injection H1 as H3 H4. subst tok.
+    assert (length (a ++ c :: rest) <= length a)%nat as L.
+    { destruct Hd as [Hd|Hd]; [apply decode_symbol_len in Hd; exact Hd|apply decode_symbol_len_colon in Hd; exact Hd]. }
+    rewrite app_length in L. cbn [length] in L. lia.
+  - cbn [lres_state lres_ok] in H. injection H as _ H. discriminate H.
+Qed.
+
+(* all special runes together: behind a non-empty plain prefix a special rune that is not an absorbed exponent sign
+   makes the name unreadable *)
+Theorem special_after_reach_not_readable : forall a c rest, reach a -> a <> [] -> mem_z c special_runes = true ->
+  ((c =? 43) || (c =? 45)) && ((last a 0 =? 101) || (last a 0 =? 69)) && sci_prefix_ok a = false ->
+  ~ reads_back (a ++ c :: rest).
+Proof.
+  intros a c rest F Ha Hc Hs.
+  assert (In c special_runes) as Hin.
+  { clear - Hc. induction special_runes as [|k l IH]; [discriminate Hc|]. cbn [mem_z] in Hc.
+    apply orb_true_iff in Hc. destruct Hc as [Hc|Hc]; [left; apply Z.eqb_eq; exact Hc|right; exact (IH Hc)]. }
+  unfold special_runes in Hin. cbn [In] in Hin.
+  destruct Hin as [Hin|[Hin|Hin]].
+  - subst c. apply sign_split_not_readable; [exact F|exact Ha|left; reflexivity|exact Hs].
+  - subst c. apply sign_split_not_readable; [exact F|exact Ha|right; reflexivity|exact Hs].
+  - do 7 (destruct Hin as [Hin|Hin]; [subst c; apply split_name_not_readable; auto; unfold hard_runes; cbn [In]; tauto|]).
+    destruct Hin as [Hin|Hin]; [subst c; apply slash_colon_split_not_readable; auto|].
+    do 5 (destruct Hin as [Hin|Hin]; [subst c; apply split_name_not_readable; auto; unfold hard_runes; cbn [In]; tauto|]).
+    destruct Hin as [Hin|Hin]; [subst c; apply slash_colon_split_not_readable; auto|].
+    repeat (destruct Hin as [Hin|Hin]; [subst c; apply split_name_not_readable; auto; unfold hard_runes; cbn [In]; tauto|]).
+    contradiction.
+Qed.
+
+Theorem special_after_plain_not_readable : forall a c rest, Forall plain a -> a <> [] -> mem_z c special_runes = true ->
+  ((c =? 43) || (c =? 45)) && ((last a 0 =? 101) || (last a 0 =? 69)) && sci_prefix_ok a = false ->
+  ~ reads_back (a ++ c :: rest).
+Proof. intros a c rest F. apply special_after_reach_not_readable. apply plain_reach. exact F. Qed.
+
+(* ======== D: every name that begins with a plain rune, exactly ======== *)
+
+(* all of rest goes into the atom buffer behind buf: each rune is plain, or a sign directly behind e / E while the
+   buffer is the beginning of a number in scientific notation (lexer.go LexerNormal, case + / -) *)
+Fixpoint absorbed (buf rest : list Z) : bool :=
+  match rest with
+  | [] => true
+  | c :: rest' =>
+      if mem_z c special_runes
+      then ((c =? 43) || (c =? 45)) && ((last buf 0 =? 101) || (last buf 0 =? 69)) && sci_prefix_ok buf
+           && absorbed (buf ++ [c]) rest'
+      else absorbed (buf ++ [c]) rest'
+  end.
+
+Lemma absorbed_run : forall rest buf s p, view s LNormal buf [] p -> p = last buf 0 -> absorbed buf rest = true ->
+  exists s', lex_all s rest = LOk s' /\ view s' LNormal (buf ++ rest) [] (last (buf ++ rest) 0).
+Proof.
+  induction rest as [|c rest IH]; intros buf s p V Hp A.
+  - exists s. split; [reflexivity|]. rewrite app_nil_r. subst p. exact V.
+  - cbn [absorbed] in A. subst p.
+    assert (exists s1, lex_rune s c = LOk s1 /\ view s1 LNormal (buf ++ [c]) [] c) as [s1 [E1 V1]].
+    { destruct (mem_z c special_runes) eqn:Em.
+      - apply andb_true_iff in A. destruct A as [A _]. apply andb_true_iff in A. destruct A as [A A3].
+        apply andb_true_iff in A. destruct A as [A1 A2].
+        apply (step_exp_sign s buf [] c (last buf 0)); [| |exact A3|exact V].
+        + apply orb_true_iff in A1. destruct A1 as [H|H]; apply Z.eqb_eq in H; auto.
+        + apply orb_true_iff in A2. destruct A2 as [H|H]; apply Z.eqb_eq in H; auto.
+      - apply step_plain with (p := last buf 0); [exact Em|exact V]. }
+    assert (absorbed (buf ++ [c]) rest = true) as A'.
+    { destruct (mem_z c special_runes); [apply andb_true_iff in A; destruct A as [_ A]; exact A|exact A]. }
+    assert (c = last (buf ++ [c]) 0) as L by (symmetry; apply last_last).
+    destruct (IH (buf ++ [c]) s1 c V1 L A') as [s2 [E2 V2]].
+    exists s2. split; [cbn [lex_all]; rewrite E1; exact E2|]. rewrite <- app_assoc in V2. exact V2.
+Qed.
+
+Lemma not_absorbed_split : forall rest buf, absorbed buf rest = false ->
+  exists r1 c r2, rest = r1 ++ c :: r2 /\ absorbed buf r1 = true /\ mem_z c special_runes = true /\
+    ((c =? 43) || (c =? 45)) && ((last (buf ++ r1) 0 =? 101) || (last (buf ++ r1) 0 =? 69)) && sci_prefix_ok (buf ++ r1) = false.
+Proof.
+  induction rest as [|c rest IH]; intros buf A; [discriminate A|]. cbn [absorbed] in A.
+  destruct (mem_z c special_runes) eqn:Em.
+  - destruct (((c =? 43) || (c =? 45)) && ((last buf 0 =? 101) || (last buf 0 =? 69)) && sci_prefix_ok buf) eqn:Es.
+    + cbn [andb] in A. destruct (IH _ A) as [r1 [c' [r2 [H1 [H2 [H3 H4]]]]]].
+      exists (c :: r1), c', r2. split; [rewrite H1; reflexivity|].
+      split; [cbn [absorbed]; rewrite Em, Es; exact H2|]. split; [exact H3|]. rewrite <- app_assoc in H4. exact H4.
+    + exists [], c, rest. split; [reflexivity|]. split; [reflexivity|]. split; [exact Em|]. rewrite app_nil_r. exact Es.
+  - destruct (IH _ A) as [r1 [c' [r2 [H1 [H2 [H3 H4]]]]]].
+    exists (c :: r1), c', r2. split; [rewrite H1; reflexivity|].
+    split; [cbn [absorbed]; rewrite Em; exact H2|]. split; [exact H3|]. rewrite <- app_assoc in H4. exact H4.
+Qed.
+
+Lemma reach_reads_back_iff : forall m, reach m -> m <> [] ->
+  (reads_back m <-> decode_atom m = Some (mkTok TSymbol m)).
+Proof.
+  intros m [s1 [E1 V1]] Hm. unfold reads_back, lex_text. rewrite lex_all_app, E1. cbn [lex_all].
+  pose proof (blank_after s1 m _ V1 Hm) as B.
+  destruct (decode_atom m) as [tok|] eqn:E.
+  - destruct B as [s' [E2 T2]]. rewrite E2. cbn [lex_all lres_state lres_ok]. rewrite T2. split.
+    + intro H. injection H as H. rewrite H. reflexivity.
+    + intro H. injection H as H. rewrite H. reflexivity.
+  - destruct B as [s' E2]. rewrite E2. cbn [lex_all lres_state lres_ok]. split.
+    + intro H. injection H as _ H. discriminate H.
+    + intro H. discriminate H.
+Qed.
+
+Lemma absorbed_reach : forall c rest, plain c -> absorbed [c] rest = true -> reach ([c] ++ rest).
+Proof.
+  intros c rest Hc A. destruct (plain_reach [c]) as [s0 [E0 V0]]; [repeat constructor; exact Hc|].
+  destruct (absorbed_run rest [c] s0 _ V0 eq_refl A) as [s1 [E1 V1]].
+  exists s1. split; [rewrite lex_all_app, E0; exact E1|exact V1].
+Qed.
+
+Theorem plain_first_reads_back_iff : forall c rest, plain c ->
+  (reads_back (c :: rest) <->
+   absorbed [c] rest = true /\ decode_atom (c :: rest) = Some (mkTok TSymbol (c :: rest))).
+Proof.
+  intros c rest Hc. destruct (absorbed [c] rest) eqn:A.
+  - pose proof (reach_reads_back_iff ([c] ++ rest) (absorbed_reach c rest Hc A) ltac:(discriminate)) as I.
+    cbn [app] in I. rewrite I. split; [intro H; split; [reflexivity|exact H]|intros [_ H]; exact H].
+  - split; [|intros [H _]; discriminate H]. intro H. exfalso.
+    destruct (not_absorbed_split rest [c] A) as [r1 [c' [r2 [H1 [H2 [H3 H4]]]]]]. subst rest.
+    exact (special_after_reach_not_readable ([c] ++ r1) c' r2 (absorbed_reach c r1 Hc H2) ltac:(discriminate) H3 H4 H).
 Qed.
